@@ -378,7 +378,7 @@ assignment — that is one-to-one on the document's ids, with `trailer' = rename
 every id `old` found at `rho old`: renamed by `rho` when it is reachable from the new trailer, untouched
 otherwise. -/
 theorem renumber_iso_noreorder (d : Doc) (start : Nat) (hs : d.objects.Sorted)
-    (hno : pagePairs (pageIter d.trailer d.objects) = none)
+    (hno : pagePairs (firstOcc (pageIter d.trailer d.objects)) = none)
     (hhi : start + d.objects.length ≤ U32_MAXE + 1) :
     ∃ d' rho, renumber d start = .ok d' ∧
       (∀ p ∈ assign (sortBy idLeE d.objects.keys) start, rho p.1 = p.2) ∧
@@ -447,7 +447,7 @@ theorem renumber_iso_noreorder (d : Doc) (start : Nat) (hs : d.objects.Sorted)
       have hnin : ¬ _ := fun hin => hr ((traverse_eq_reach _ _ _ _).mp hin)
       rw [hobj]; simp [hnin]
 
-example : pagePairs (pageIter [] [((3, 0), Obj.null), ((7, 0), Obj.null)]) = none ∧
+example : pagePairs (firstOcc (pageIter [] [((3, 0), Obj.null), ((7, 0), Obj.null)])) = none ∧
     Objects.Sorted [((3, 0), Obj.null), ((7, 0), Obj.null)] := by
   constructor
   · decide
